@@ -1274,7 +1274,9 @@ def _s_sum_range(ex, st, args, kw, node):
     lnode, captured = lam.py[1], lam.py[2]
     free = sorted({n.id for n in ast.walk(lnode.body) if isinstance(n, ast.Name)} - {a.arg for a in lnode.args.args})
     cap_ids = tuple((n, captured[n].t.get_id() if (n in captured and captured[n].t is not None) else None) for n in free)
-    heap_ids = tuple(sorted((f, a.get_id()) for f, a in (st.heap0 if st.use_old else st.heap).items()))
+    # the sum depends on the heap: key by the fields that differ from the entry heap
+    heap_ids = tuple(sorted((f, a.get_id()) for f, a in (st.heap0 if st.use_old else st.heap).items()
+                            if f not in st.heap0 or not a.eq(st.heap0[f])))
     lo_t, hi_t = as_int(lo), as_int(hi)
     key = (ast.dump(lnode), cap_ids, heap_ids, lo_t.get_id())
     if key not in _SUMS:
